@@ -245,3 +245,133 @@ func TestVerifReplay_SendFeeEstimate(t *testing.T) {
 			a.Amount, a.FeePpk, len(proofs), proofs.Amount(), mintFee, int64(proofs.Amount())-int64(mintFee), a.Amount)
 	}
 }
+
+// C19: swapToTrusted on a P2PK SIG_ALL token first swaps at the token's mint
+// with outputs derived from the stored counter of that mint's active keyset.
+// Nothing advances that counter afterwards: a second such receive from the
+// same mint derives - and submits for signing - the very same outputs.
+func TestVerifReplay_SwapToTrustedReusesCounters(t *testing.T) {
+	mintMaster, _ := hdkeychain.NewMaster([]byte("0123456789abcdef0123456789abcdef"), &chaincfg.MainNetParams)
+	ks, err := crypto.GenerateKeyset(mintMaster, 0, 0, true)
+	if err != nil {
+		t.Fatal(err)
+	}
+	var submitted [][]string // B_ lists of the swap requests, in order
+	mux := http.NewServeMux()
+	mux.HandleFunc("/v1/swap", func(rw http.ResponseWriter, req *http.Request) {
+		var r nut03.PostSwapRequest
+		json.NewDecoder(req.Body).Decode(&r)
+		var bs []string
+		resp := nut03.PostSwapResponse{Signatures: cashu.BlindedSignatures{}}
+		for _, o := range r.Outputs {
+			bs = append(bs, o.B_)
+			b, _ := hex.DecodeString(o.B_)
+			B_, _ := secp256k1.ParsePubKey(b)
+			C_ := crypto.SignBlindedMessage(B_, ks.Keys[o.Amount].PrivateKey)
+			resp.Signatures = append(resp.Signatures, cashu.BlindedSignature{Amount: o.Amount, Id: ks.Id, C_: hex.EncodeToString(C_.SerializeCompressed())})
+		}
+		submitted = append(submitted, bs)
+		json.NewEncoder(rw).Encode(resp)
+	})
+	srv := httptest.NewServer(mux) // every other endpoint (mint/melt quotes of the default mint) answers 404
+	defer srv.Close()
+	db, err := storage.InitBolt(t.TempDir())
+	if err != nil {
+		t.Fatal(err)
+	}
+	defer db.Close()
+	wk := crypto.WalletKeyset{Id: ks.Id, MintURL: srv.URL, Unit: "sat", Active: true, PublicKeys: ks.PublicKeys()}
+	if err := db.SaveKeyset(&wk); err != nil {
+		t.Fatal(err)
+	}
+	master, _ := hdkeychain.NewMaster([]byte("fedcba9876543210fedcba9876543210"), &chaincfg.MainNetParams)
+	priv, _ := secp256k1.GeneratePrivateKey()
+	mint := walletMint{mintURL: srv.URL, activeKeyset: wk, inactiveKeysets: map[string]crypto.WalletKeyset{}}
+	w := &Wallet{db: db, unit: cashu.Sat, defaultMint: "http://127.0.0.1:1", masterKey: master, privateKey: priv,
+		mints: map[string]walletMint{srv.URL: mint, "http://127.0.0.1:1": {mintURL: "http://127.0.0.1:1", activeKeyset: wk}}}
+	secret := fmt.Sprintf(`["P2PK",{"nonce":"da62796403af76c80cd6ce9153ed3746","data":%q,"tags":[["sigflag","SIG_ALL"]]}]`, hex.EncodeToString(priv.PubKey().SerializeCompressed()))
+	for round := 0; round < 2; round++ {
+		proofs := cashu.Proofs{{Amount: 8, Id: ks.Id, Secret: secret, C: "02" + fmt.Sprintf("%064x", round+1)}}
+		w.swapToTrusted(proofs, &mint) // the melt/mint leg towards the unreachable default mint fails; the swap at the token's mint has happened
+	}
+	if len(submitted) != 2 {
+		t.Skipf("expected two swap requests, saw %d", len(submitted))
+	}
+	seen := map[string]bool{}
+	for _, b := range submitted[0] {
+		seen[b] = true
+	}
+	for _, b := range submitted[1] {
+		if seen[b] {
+			t.Fatalf("CONFIRMED: the second SIG_ALL receive submitted output %s for signing again: it is derived from a (keyset, counter) pair that the first receive already had signed (stored counter still %d)", b, db.GetKeysetCounter(ks.Id))
+		}
+	}
+}
+
+// C19: two receives (no swap to the default mint) from the same trusted mint
+// never submit the same output twice: the stored counter is advanced past the
+// outputs of the first before the second derives its own.
+func TestVerifReplay_ReceiveAdvancesCounter(t *testing.T) {
+	mintMaster, _ := hdkeychain.NewMaster([]byte("0123456789abcdef0123456789abcdef"), &chaincfg.MainNetParams)
+	ks, err := crypto.GenerateKeyset(mintMaster, 0, 0, true)
+	if err != nil {
+		t.Fatal(err)
+	}
+	var submitted [][]string
+	mux := http.NewServeMux()
+	mux.HandleFunc("/v1/keysets", func(rw http.ResponseWriter, req *http.Request) {
+		fmt.Fprintf(rw, `{"keysets":[{"id":%q,"unit":"sat","active":true,"input_fee_ppk":0}]}`, ks.Id)
+	})
+	mux.HandleFunc("/v1/swap", func(rw http.ResponseWriter, req *http.Request) {
+		var r nut03.PostSwapRequest
+		json.NewDecoder(req.Body).Decode(&r)
+		var bs []string
+		resp := nut03.PostSwapResponse{Signatures: cashu.BlindedSignatures{}}
+		for _, o := range r.Outputs {
+			bs = append(bs, o.B_)
+			b, _ := hex.DecodeString(o.B_)
+			B_, _ := secp256k1.ParsePubKey(b)
+			C_ := crypto.SignBlindedMessage(B_, ks.Keys[o.Amount].PrivateKey)
+			resp.Signatures = append(resp.Signatures, cashu.BlindedSignature{Amount: o.Amount, Id: ks.Id, C_: hex.EncodeToString(C_.SerializeCompressed())})
+		}
+		submitted = append(submitted, bs)
+		json.NewEncoder(rw).Encode(resp)
+	})
+	srv := httptest.NewServer(mux)
+	defer srv.Close()
+	db, err := storage.InitBolt(t.TempDir())
+	if err != nil {
+		t.Fatal(err)
+	}
+	defer db.Close()
+	wk := crypto.WalletKeyset{Id: ks.Id, MintURL: srv.URL, Unit: "sat", Active: true, PublicKeys: ks.PublicKeys()}
+	if err := db.SaveKeyset(&wk); err != nil {
+		t.Fatal(err)
+	}
+	master, _ := hdkeychain.NewMaster([]byte("fedcba9876543210fedcba9876543210"), &chaincfg.MainNetParams)
+	priv, _ := secp256k1.GeneratePrivateKey()
+	w := &Wallet{db: db, unit: cashu.Sat, defaultMint: srv.URL, masterKey: master, privateKey: priv,
+		mints: map[string]walletMint{srv.URL: {mintURL: srv.URL, activeKeyset: wk, inactiveKeysets: map[string]crypto.WalletKeyset{}}}}
+	for round := 0; round < 2; round++ {
+		proofs := cashu.Proofs{{Amount: 8, Id: ks.Id, Secret: fmt.Sprintf("received-%d", round), C: "02" + fmt.Sprintf("%064x", round+1)}}
+		token, err := cashu.NewTokenV4(proofs, srv.URL, cashu.Sat, false)
+		if err != nil {
+			t.Fatal(err)
+		}
+		if _, err := w.Receive(token, false); err != nil {
+			t.Skipf("receive %d failed: %v", round, err)
+		}
+	}
+	if len(submitted) != 2 {
+		t.Skipf("expected two swap requests, saw %d", len(submitted))
+	}
+	seen := map[string]bool{}
+	for _, b := range submitted[0] {
+		seen[b] = true
+	}
+	for _, b := range submitted[1] {
+		if seen[b] {
+			t.Fatalf("CONFIRMED: the second receive submitted output %s for signing again (stored counter %d after two receives)", b, db.GetKeysetCounter(ks.Id))
+		}
+	}
+}
